@@ -68,7 +68,7 @@ def ensure_coq():
 
 def batches(tier):
     if tier == 'thorough':
-        return [('mixed', 12000, 70), ('faults', 12000, 70)]
+        return [('mixed', 18000, 90), ('faults', 18000, 90)]
     return [('mixed', 1200, 45), ('faults', 1200, 45)]
 
 
